@@ -720,9 +720,19 @@ fn infer_generic_member(
         let type_index = db.get_type_index();
         if let Some(type_decl) = type_index.get_type_decl(base_type_decl_id)
             && type_decl.is_alias()
-            && let Some(origin_type) = type_decl.get_alias_origin(db, Some(&substitutor))
         {
-            return infer_member_by_lookup(db, cache, &origin_type, lookup, &infer_guard.fork());
+            // a self-referential generic alias (`---@alias Q<T> T extends any and Q<T> or T`)
+            // would be expanded forever
+            infer_guard.check(base_type_decl_id)?;
+            if let Some(origin_type) = type_decl.get_alias_origin(db, Some(&substitutor)) {
+                return infer_member_by_lookup(
+                    db,
+                    cache,
+                    &origin_type,
+                    lookup,
+                    &infer_guard.fork(),
+                );
+            }
         }
 
         let result = infer_generic_members_from_super_generics(
